@@ -5,7 +5,7 @@ src = "/root/.claude/projects/-verif/35596b27-1383-4ca7-ab1a-2bdbd98bdbfd/subage
 out = "/verif/docs/reports"
 os.makedirs(out, exist_ok=True)
 for p in sorted(glob.glob(src + "/agent-*.jsonl")):
-    last = None; name = None
+    last = None; name = None; alls = []
     for line in open(p, errors="replace"):
         try: o = json.loads(line)
         except Exception: continue
@@ -13,11 +13,13 @@ for p in sorted(glob.glob(src + "/agent-*.jsonl")):
         if o.get("type") == "assistant" and isinstance(m.get("content"), list):
             txt = "".join(c.get("text", "") for c in m["content"] if c.get("type") == "text")
             if len(txt) > 800: last = txt
+            if len(txt) > 3000: alls.append(txt)
         if o.get("type") == "user" and name is None and isinstance(m.get("content"), (str, list)):
             c = m["content"] if isinstance(m["content"], str) else " ".join(x.get("text", "") for x in m["content"] if isinstance(x, dict))
             import re
             mm = re.search(r"Your unit name: `([a-z\-]+)`", c)
             if mm: name = mm.group(1)
     if last:
-        open(os.path.join(out, (name or os.path.basename(p)[:-6]) + ".md"), "w").write(last)
+        body = "\n\n---\n\n".join(alls) if alls else last
+        open(os.path.join(out, (name or os.path.basename(p)[:-6]) + ".md"), "w").write(body)
         print(name, len(last))
